@@ -72,6 +72,18 @@ func c17GenSet(seed int64, idx int, tag string) *yang.ModSet {
 	for _, m := range ms.Mods {
 		walk(m)
 	}
+	// an identityref typedef of an imported module, used for a leaf and a list key of this module: an identity of
+	// this module is named bare, one of another module with its module's name
+	if top := c14Top(ms.Mods[0]); top != nil && idx%2 == 0 {
+		m0 := ms.Mods[0]
+		m0.Add(yang.S("import", "c17-idt", yang.S("prefix", "cidt")), yang.S("identity", "sctp", yang.S("base", "cidt:proto")))
+		top.Add(yang.S("leaf", "c17-kind", yang.S("type", "cidt:proto-ref")),
+			yang.S("list", "c17-kinds", yang.S("key", "k"), yang.S("leaf", "k", yang.S("type", "cidt:proto-ref")), yang.S("leaf", "weight", yang.S("type", "uint8"))))
+		yang.SortSections(m0)
+		ms.Mods = append(ms.Mods, yang.S("module", "c17-idt", yang.S("namespace", "urn:verif:c17-idt"), yang.S("prefix", "it"),
+			yang.S("identity", "proto"), yang.S("identity", "tcp", yang.S("base", "proto")), yang.S("identity", "udp", yang.S("base", "proto")),
+			yang.S("typedef", "proto-ref", yang.S("type", "identityref", yang.S("base", "proto")))))
+	}
 	// string types with two pattern statements in one type statement (a value must match both), as a leaf
 	// and as a list key
 	if top := c14Top(ms.Mods[0]); top != nil {
@@ -177,6 +189,10 @@ func buildRnodes(ms *yang.ModSet, mod *yang.Stmt, parent *yang.Stmt) []*rnode {
 		case "leaf", "leaf-list":
 			n := &rnode{s: k, mod: mod}
 			n.typ = yang.RTypeFromStmt(k.Find("type"), yang.ResolverFor(ms, mod))
+			if t := k.Find("type"); t != nil && t.Arg == "cidt:proto-ref" {
+				// (the value space of the fixed identityref nodes, written out: identities derived from c17-idt:proto)
+				n.typ = &yang.RType{Kind: "identityref", Idents: map[string]bool{"sctp": true, "c17-idt:tcp": true, "c17-idt:udp": true}}
+			}
 			out = append(out, n)
 		}
 	}
@@ -282,6 +298,7 @@ func sampleValue(r *core.Rng, t *yang.RType) (good string, bad string) {
 		"007", "08", "+5", "0100", "0x7", "0b11", "0o17", "1_0", "1e1",
 		// characters that are legal in a YANG string though a program may think otherwise (DEL, C1 controls, the
 		// replacement character, letters of several bytes), and two that are not
+		"sctp", "c17-idt:tcp", "c17-idt:udp", "tcp", "udp", "c17-idt:sctp", "cidt:tcp", "it:tcp", "c17-idt:proto", "proto",
 		"1.000000000001", "2.499999999999", "3.5000000001", "-0.000000000001", "2.5000000001", "-1.5000000001", "0.999999999999", "3.5", "-1.5",
 		"a\u007fb", "k\u0085", "\u009f", "é日", "caf\ufffd", "a\x01b", "\ufffe"}
 	var goods, bads []string
